@@ -65,12 +65,13 @@ def shape_signature(case, r, s):
         o = "ins"              # the failing call is the insert of the caller's delete+insert fallback
     err = btree.errnorm(obs)
     clauses = ",".join(sorted(s["failed"]))
-    if s.get("fastpath") and s.get("fastpath_leaf_empty") and o in ("ins", "app") and case["hint"] != "none":
-        cause = "hint_fastpath_insert_into_empty_rightmost_leaf:%s" % o
-    elif err == "separator_key_already_exists":
-        cause = "split_separator_already_in_parent:%s" % o
+    errored = bool(err) or (prim is not None and prim["class"] in ("panic", "failed_but_changed"))
+    if err == "separator_key_already_exists":
+        cause = "split_separator_already_in_parent"
     elif prim and prim["class"] == "failed_but_changed" and case["steps"][st].get("mayfail"):
-        cause = "unsplittable_leaf_split:%s" % o
+        cause = "unsplittable_leaf_split"
+    elif s.get("fastpath") and s.get("fastpath_leaf_empty") and not errored and o in ("ins", "app") and case["hint"] != "none":
+        cause = "hint_fastpath_insert_into_empty_rightmost_leaf:%s" % o
     else:
         cause = "after_%s:%s:%s" % (o, prim["class"] if prim else "ok", err)
     return "shape:%s:%s" % (clauses, cause)
